@@ -356,6 +356,20 @@ func (z *ZodEnum[T, R]) With(fn func(value R, payload *core.ParsePayload), param
 // VALIDATION METHODS
 // =============================================================================
 
+// lookupHashable looks key up in m. With K = any a key may hold a value that cannot be hashed
+// (a slice, map or func, also inside a struct or array held in an interface); the map access then
+// panics. Such a key is in no map, so the lookup reports "absent" instead.
+func lookupHashable[K comparable, V any](m map[K]V, key K) (v V, ok bool) {
+	defer func() {
+		if recover() != nil {
+			var zero V
+			v, ok = zero, false
+		}
+	}()
+	v, ok = m[key]
+	return v, ok
+}
+
 // validateEnum validates the enum value and applies checks, collecting all
 // issues encountered during validation.
 func (z *ZodEnum[T, R]) validateEnum(
@@ -365,7 +379,7 @@ func (z *ZodEnum[T, R]) validateEnum(
 ) (T, error) {
 	var collected []core.ZodRawIssue
 
-	if _, ok := z.internals.Values[value]; !ok {
+	if _, ok := lookupHashable(z.internals.Values, value); !ok {
 		opts := make([]any, 0, len(z.internals.Values))
 		for v := range z.internals.Values {
 			opts = append(opts, v)
